@@ -42,6 +42,24 @@ func newRawPeer(key testKey, isInit bool) *rawPeer {
 	return &rawPeer{key: key, isInit: isInit, hs: hs, sendCtr: 16}
 }
 
+// seededReader is a deterministic byte stream: two raw peers built from the same seed draw the same ephemeral key.
+type seededReader struct{ xof blake2b.XOF }
+
+func (s seededReader) Read(p []byte) (int, error) { return s.xof.Read(p) }
+
+func newRawPeerSeeded(key testKey, isInit bool, seed []byte) *rawPeer {
+	x, err := blake2b.NewXOF(blake2b.OutputLengthUnknown, nil)
+	if err != nil {
+		panic(err)
+	}
+	x.Write(seed)
+	hs, err := noise.NewHandshakeState(noise.Config{Initiator: isInit, Pattern: noise.HandshakeNN, CipherSuite: advSuite, Random: seededReader{x}})
+	if err != nil {
+		panic(err)
+	}
+	return &rawPeer{key: key, isInit: isInit, hs: hs, sendCtr: 16}
+}
+
 func advPresig(purpose string, msg []byte) []byte {
 	h, err := blake2b.NewXOF(64, nil)
 	if err != nil {
